@@ -55,6 +55,7 @@ def case_gen(draw, files=True):
         case['pad'] = draw(st.sampled_from([0, 0, 7, 301]))
         case['open_obj'] = draw(st.sampled_from([None, None, 'plain', 'short']))
         case['encoding'] = draw(st.sampled_from(['utf-8', 'utf-8', 'utf-16', 'utf-32']))
+        case['bigitem'] = draw(st.sampled_from([0, 0, 0, 66000, 140000]))
     return case
 
 
@@ -103,7 +104,8 @@ def check_memory(case):
 
 def check_files(case):
     comp = case['compression']
-    pad = 'é€\U0001F600' * case['pad']
+    # multi-byte characters of every UTF-8 length and lead-byte class (C3, E0, E2, EF, F0), incl. U+FEFF inside the text
+    pad = (chr(0xe9) + chr(0x20ac) + chr(0x1F600) + chr(0x905) + chr(0xfeff) + chr(0x7ff) + chr(0x800) + chr(0xffff) + chr(0x10000)) * case['pad']
     items = []
     for n in range(case['repeat']):
         for it in case['items']:
@@ -111,6 +113,11 @@ def check_files(case):
                 it = dict(it)
                 it['pad%d' % (n % 3)] = pad[:len(pad) - (n % 5)]
             items.append(it)
+    if case.get('bigitem') and items:
+        # one record whose line is longer than the 64 KiB read / write chunk, in the middle of ordinary ones
+        big = dict(items[len(items) // 2])
+        big['big'] = ('x' + chr(0x905) + 'y') * (case['bigitem'] // 5)
+        items.insert(len(items) // 2, big)
     ctx = {k: case[k] for k in ('compression', 'repeat', 'pad', 'open_obj', 'encoding')}
     enc = case['encoding']
     ctx['items'] = case['items']
